@@ -2,6 +2,9 @@ package verifh
 
 import (
 	"encoding/binary"
+
+	"github.com/spf13/afero"
+
 	"encoding/hex"
 	"os"
 	"path/filepath"
@@ -19,7 +22,11 @@ import (
 // hostileSession runs reqs on one connection, then probes liveness on a second connection of the same server.
 func hostileSession(t *testing.T, root string, allow bool, reqs []Req) (why string, steps []StepObs) {
 	synctest.Test(t, func(t *testing.T) {
-		s := startSrv(SrvOpts{Root: root, AllowWrite: allow})
+		// handle ledger below BasePathFs: a descriptor leaked per hostile request ends in "too many open files",
+		// i.e. the server stops accepting
+		leaf := newVFs(afero.NewOsFs(), "leaf")
+		leaf.record = false
+		s := startSrv(SrvOpts{Root: root, AllowWrite: allow, LeafWrap: func(afero.Fs) afero.Fs { return leaf }})
 		c := s.Dial(nil)
 		synctest.Wait()
 		for _, rq := range reqs {
@@ -41,6 +48,9 @@ func hostileSession(t *testing.T, root string, allow bool, reqs []Req) (why stri
 			if why == "" {
 				why = "accept loop did not end after listener close"
 			}
+		}
+		if l := leaf.Outstanding(); len(l) > 0 && why == "" {
+			why = sprintf("descriptor leak: after all connections ended %d file handle(s) are still open (%v); repeated, the server runs out of descriptors and stops accepting", len(l), l)
 		}
 	})
 	return
